@@ -44,14 +44,13 @@ func vc03Viol(key, mon string, kv ...any) {
 // first-witness collector: sweeps over 10^8 inputs must not serialise on the
 // recorder when a mutant makes every input fail.
 type vc03First struct {
-	mu   sync.Mutex
-	n    map[string]int
-	mon  string
-	note map[string]map[string]any
+	mu  sync.Mutex
+	n   map[string]int
+	mon string
 }
 
 func vc03NewFirst(mon string) *vc03First {
-	return &vc03First{n: map[string]int{}, mon: mon, note: map[string]map[string]any{}}
+	return &vc03First{n: map[string]int{}, mon: mon}
 }
 
 func (f *vc03First) bad(key string, kv ...any) {
@@ -469,7 +468,7 @@ func TestVerifC03NTT(t *testing.T) {
 	vc03Flags()
 	lib.Mandatory("ntt-compared", "invntt-compared", "mulhat-compared", "schoolbook-compared", "pack-compared")
 	fw := vc03NewFirst(mon)
-	n := 800 + lib.Scale(3000, 120000)
+	n := 800 + lib.Scale(6000, 120000)
 	lib.Par(n, func(i int) {
 		r := lib.NewRng("c03/wb/ntt", i)
 
@@ -527,12 +526,15 @@ func TestVerifC03NTT(t *testing.T) {
 			}
 		}
 
-		// MulHat: a bounded by 7q (a fresh NTT output), b by q; result = a o b / R,
-		// bounded by 2q
+		// MulHat: one operand bounded by 7q (a fresh NTT output), the other by q;
+		// result = a o b / R, bounded by 2q
 		a := vc03Structured(r, i, 7*vc03Q)
 		b := vc03Structured(r, (i*7+3)%n, vc03Q)
 		wantM := ref.MulNTT(vc03ToRef(&a), vc03ToRef(&b))
 		ta, tb := a, b
+		if i%2 == 1 {
+			ta, tb = b, a // PolyDotHat(m, sk.sh, NTT(u)) has the large operand second
+		}
 		ta.Tangle()
 		tb.Tangle()
 		var m Poly
@@ -620,7 +622,7 @@ func TestVerifC03DeriveNoise(t *testing.T) {
 	var mu sync.Mutex
 	var seen2 [16]uint32
 	var seen3 [8]uint64
-	n := lib.Scale(4000, 150000)
+	n := lib.Scale(8000, 150000)
 	lib.Par(n, func(i int) {
 		r := lib.NewRng("c03/wb/noise", i)
 		seed := r.Bytes(32)
@@ -709,7 +711,7 @@ func TestVerifC03DeriveUniform(t *testing.T) {
 		lib.Count("x4-unavailable-in-this-configuration")
 	}
 	fw := vc03NewFirst(mon)
-	n := lib.Scale(3000, 100000)
+	n := lib.Scale(6000, 100000)
 	lib.Par(n, func(i int) {
 		r := lib.NewRng("c03/wb/uniform", i)
 		var seed [32]byte
